@@ -3,7 +3,8 @@
     [Print Assumptions].  Model: Kernels/Lex.v (the lexer with the fixes of
     proposed_fixes/C17 and C02 applied), Kernels/LexUni.v. *)
 From LQ Require Import Base.Str Kernels.LexUni Kernels.Lex Kernels.ErrCtx
-  Proofs.LexMatch_proofs Proofs.Lex_proofs Proofs.ErrCtx_proofs.
+  Proofs.LexMatch_proofs Proofs.Lex_proofs Proofs.LexNest_proofs Proofs.LexText_proofs
+  Proofs.ErrCtx_proofs.
 
 (** For every source text and either setting of [shorthand_indexes]: the markup
     tokens cover the source exactly — the first starts at 0, each starts where
@@ -36,6 +37,35 @@ Print Assumptions c17_tiled_first.
 Theorem c17_tiled_last : forall l a b m, tiled (l ++ [m]) a b -> mtok_stop m = b.
 Proof. exact tiled_last. Qed.
 Print Assumptions c17_tiled_last.
+
+(** For every source text: each markup token is well placed ([mtok_ok],
+    Kernels/Lex.v) — a content token's text is the source text of its span;
+    raw and comment text is a slice strictly inside the span; [{{]/[}}],
+    [{%]/[%}], [{#..]/[..#}] delimiters sit at the two ends of the span; a
+    tag's name is a slice after the opening delimiter; and the expression
+    tokens (for a liquid tag: the line statements, each with its expression)
+    are nested strictly between the delimiters, in order ([chain], [lines_ok]). *)
+Theorem c17_token_text_eq : forall sh s toks,
+  lex sh s = Ok toks -> Forall (mtok_ok s) toks.
+Proof. exact tokens_ok. Qed.
+Print Assumptions c17_token_text_eq.
+
+(** [chain] in words: expression tokens lie inside [lo, hi], none ends before
+    it starts, each is itself well placed ([tok_ok]: a plain token spells the
+    source text of its span; path segments, template-string parts, [${}]
+    sub-expressions and range bounds are chained inside their parent) ... *)
+Theorem c17_expression_tokens_nested : forall s lo l hi,
+  chain s lo l hi ->
+  Forall (fun e => (lo <= zstart e /\ zstart e <= etok_stop e /\ etok_stop e <= hi)%Z /\ tok_ok s e) l.
+Proof. exact chain_bounds. Qed.
+Print Assumptions c17_expression_tokens_nested.
+
+(** ... and consecutive tokens are in order. *)
+Theorem c17_expression_tokens_in_order : forall s lo l hi i e1 e2,
+  chain s lo l hi -> nth_error l i = Some e1 -> nth_error l (S i) = Some e2 ->
+  (etok_stop e1 <= zstart e2)%Z.
+Proof. exact chain_adjacent. Qed.
+Print Assumptions c17_expression_tokens_in_order.
 
 (** The position carried by a lexer error lies in [0, |s|] — |s| itself only
     for an error detected at end of input (what the fixed code guarantees: the
